@@ -55,8 +55,21 @@ unsafe impl GlobalAlloc for Tracking {
         System.dealloc(p, l)
     }
     unsafe fn realloc(&self, p: *mut u8, l: Layout, new_size: usize) -> *mut u8 {
+        let tracked = active();
         note_release(p, l.size(), l.align(), "reallocated");
-        let q = System.realloc(p, l, new_size);
+        let q = if tracked {
+            // while tracking, a reallocation always moves the block and poisons the old one: whoever keeps the old
+            // pointer reads 0xDD (an allocator is free to do this)
+            let q = System.alloc(Layout::from_size_align_unchecked(new_size, l.align()));
+            if !q.is_null() {
+                std::ptr::copy_nonoverlapping(p, q, l.size().min(new_size));
+                std::ptr::write_bytes(p, 0xDD, l.size());
+                System.dealloc(p, l);
+            }
+            q
+        } else {
+            System.realloc(p, l, new_size)
+        };
         note_alloc(q, new_size, l.align());
         q
     }
